@@ -11,7 +11,8 @@ PROPERTY = 'C04'
 RULE = ('(histories) M-broker rule-based machine restricted to portfolio creation, funding, order submission, quote '
         'moves and clock updates; instants drawn from a boundary-heavy pool (Mon-Fri x {00:00, 14:29:59, 14:30:00, '
         '14:30:01, 17:00, 20:59:59, 21:00:00, 21:00:01, 23:59}, weekends, the same instant again), >= 40% inside '
-        'exchange hours; every asset always quoted. Oracle: independent is_open(t) from integer fields; per-portfolio '
+        'exchange hours; every asset always quoted; order batches through the real ExecutionHandler (submit_orders '
+        'on and off). Oracle: independent is_open(t) from integer fields; per-portfolio '
         'FIFO model. Submit leaves cash/holdings/history unchanged (==) and appends to the queue; a closed update '
         'fills nothing and changes nothing but marks; an open update fills exactly the pending orders, full quantity, '
         'stable-sorted sells before buys, stamped with the update time, one history event each, queue empty after, '
